@@ -193,6 +193,41 @@ func runC05(c *core.Ctx) {
 	}
 	lastDel := false
 	callerBufs := map[uint8][]byte{} // id -> the buffer last accepted for it (lookup only)
+	if (start == 0 || start == 2) && t.Chance(1, 25) {
+		// a crowded header: 100-255 ids with long values (the two-byte form carries up to 255 x 255 octets, well
+		// beyond 32 KiB and just short of 64 KiB), set before the drawn history begins
+		nb := 100 + t.Intn(156)
+		perm := t.Intn(255)
+		for j := 0; j < nb; j++ {
+			id := uint8(1 + (perm+j*7)%255) // 7 is coprime to 255: distinct ids
+			n := 255 - t.Intn(4)
+			if t.Chance(1, 4) {
+				n = 1 + t.Intn(255)
+			}
+			val := t.Bytes(n)
+			callerBuf := append([]byte{}, val...)
+			var err error
+			if c.Guard("rtp.Header.SetExtension", func() { err = h.SetExtension(id, callerBuf) }) {
+				return
+			}
+			if err != nil {
+				continue
+			}
+			accepted++
+			callerBufs[id] = callerBuf
+			if i := find(id); i >= 0 {
+				model[i].val = val
+			} else {
+				model = append(model, extEl{id, val})
+			}
+		}
+		c.Logf("crowded header: %d Set calls, %d ids held", nb, len(model))
+		c.Probe("crowded-header")
+		fp = append(fp, 7<<8|uint64(nb>>5))
+		if !observe("the crowded prelude") {
+			return
+		}
+	}
 	for k := 0; k < nops; k++ {
 		switch op := t.Weighted(5, 2, 1, 1, 1); op {
 		case 0: // SetExtension
